@@ -3,6 +3,7 @@ package checks
 import (
 	"encoding/json"
 	"fmt"
+	"math"
 	"os"
 	"path/filepath"
 	"strconv"
@@ -225,6 +226,107 @@ func oracleC06Words(w WordCase) (o report.Outcome) {
 func TestC06Words(t *testing.T) { report.RunEnum(t, specC06Words, enumWords, oracleC06Words) }
 
 // ---------------------------------------------------------------------------------------------------------------
+// large structured inputs (sizes that the random generators do not reach); run time recorded, not judged
+
+type LargeCase struct {
+	Kind string `json:"kind"`
+	N    int    `json:"n"`
+	Keep bool   `json:"keep"`
+}
+
+var specC06Large = report.Spec{Property: "C06", Check: "C06Large", Exhaustive: true,
+	Rule: "a fixed list of large structured inputs on NetherlandsRDNewQuad (tile matrix 8): zig-zags between two pixel centres with 100 / 1000 / 3000 (thorough: 10000) repeats, a 10-symbol back-tracking word repeated 50 / 500 times, thin slivers 300 / 1000 (thorough: 2000) pixels long whose two banks share a pixel row, combs with 200 / 1000 teeth narrower than a pixel, " +
+		"a star with 3000 (thorough: 20000) vertices; each with keep on and off. Oracle as C06 (returns without panic within the hang limit, here 120 s because the de-duplication is super-linear on exact back-traces); the run time of every input is recorded in the evidence. Non-trivial: all (each input is thousands of vertices).",
+	Assumptions: specC06.Assumptions}
+
+func largePolygon(k string, n int) [][][2]float64 {
+	g := gen.RD.MustBuild()
+	lev := kernel.Leveled{G: g, Level: g.LevelOf(8), Deepest: g.LevelOf(8)}
+	s := lev.Span()
+	base := P{X: 20000, Y: 20000}
+	at := func(i, j int64, fx, fy float64) [2]float64 {
+		lo, _ := lev.Box(P{X: base.X + i, Y: base.Y + j})
+		return [2]float64{kernel.FromFixed(lo.X + int64(fx*float64(s))), kernel.FromFixed(lo.Y + int64(fy*float64(s)))}
+	}
+	var ring [][2]float64
+	switch k {
+	case "zigzag":
+		for i := 0; i < n; i++ {
+			ring = append(ring, at(0, 0, 0.5, 0.5), at(3, 1, 0.5, 0.5))
+		}
+		ring = append(ring, at(1, 4, 0.5, 0.5))
+	case "word":
+		b := []int{0, 1, 2, 1, 0, 3, 1, 3, 0, 2}
+		for i := 0; i < n; i++ {
+			for _, sy := range b {
+				ce := generalCentres[sy]
+				ring = append(ring, at(ce.X, ce.Y, 0.5, 0.5))
+			}
+		}
+	case "sliver": // out along the lower half of a pixel row, back along its upper half
+		for i := 0; i <= n; i++ {
+			ring = append(ring, at(int64(i), 0, 0.5, 0.25))
+		}
+		for i := n; i >= 0; i-- {
+			ring = append(ring, at(int64(i), 0, 0.5, 0.75))
+		}
+	case "comb": // teeth a third of a pixel wide, three pixels high
+		ring = append(ring, at(0, 0, 0, 0), at(int64(n), 0, 0, 0))
+		for i := n - 1; i >= 0; i-- {
+			ring = append(ring, at(int64(i), 0, 0.9, 0.5), at(int64(i), 3, 0.8, 0.5), at(int64(i), 3, 0.5, 0.5), at(int64(i), 0, 0.4, 0.5))
+		}
+	case "star":
+		for i := 0; i < n; i++ {
+			a := 2 * 3.141592653589793 * float64(i) / float64(n)
+			r := float64(n) / 3 * (0.7 + 0.3*float64(i%2))
+			ring = append(ring, at(int64(float64(n)/2.5+r*cosf(a)), int64(float64(n)/2.5+r*sinf(a)), 0.37, 0.61))
+		}
+	}
+	return [][][2]float64{ring}
+}
+
+func enumLarge(yield func(LargeCase) bool) {
+	list := []LargeCase{{Kind: "zigzag", N: 100}, {Kind: "zigzag", N: 1000}, {Kind: "zigzag", N: 3000}, {Kind: "word", N: 50}, {Kind: "word", N: 500},
+		{Kind: "sliver", N: 300}, {Kind: "sliver", N: 1000}, {Kind: "comb", N: 200}, {Kind: "comb", N: 1000}, {Kind: "star", N: 3000}}
+	if report.Tier() == "thorough" {
+		list = append(list, LargeCase{Kind: "zigzag", N: 10000}, LargeCase{Kind: "sliver", N: 2000}, LargeCase{Kind: "star", N: 20000})
+	}
+	for _, c := range list {
+		for _, keep := range []bool{false, true} {
+			c.Keep = keep
+			if !yield(c) {
+				return
+			}
+		}
+	}
+}
+
+var largeTimes = map[string]float64{}
+
+func oracleC06Large(lc LargeCase) (o report.Outcome) {
+	c := SnapCase{Grid: gen.RD, IDs: []int{8}, Q: 4, Poly: largePolygon(lc.Kind, lc.N)}
+	c.Flags.Keep = lc.Keep
+	o.NonTrivial = true
+	o.Key = fmt.Sprint(lc)
+	if os.Getenv("VERIF_HANG_LIMIT") == "" {
+		os.Setenv("VERIF_HANG_LIMIT", "120")
+		defer os.Unsetenv("VERIF_HANG_LIMIT")
+	}
+	t0 := time.Now()
+	res := snapTimed(specC06Large, c)
+	largeTimes[fmt.Sprintf("%s n=%d keep=%v (%d vertices)", lc.Kind, lc.N, lc.Keep, len(c.Poly[0]))] = float64(time.Since(t0).Microseconds()) / 1000
+	if res.Panic != nil {
+		o.Failf([]string{"panic"}, "SnapPolygon panicked on the large input %v (%d vertices): %s", lc, len(c.Poly[0]), panicText(res))
+	}
+	return o
+}
+
+func TestC06Large(t *testing.T) {
+	report.RunEnum(t, specC06Large, enumLarge, oracleC06Large)
+	report.Note(specC06Large, "run_time_ms", largeTimes)
+}
+
+// ---------------------------------------------------------------------------------------------------------------
 // growth of the run time with the vertex count: recorded, not judged
 
 func TestC06Growth(t *testing.T) {
@@ -252,3 +354,6 @@ func TestC06Growth(t *testing.T) {
 	report.Note(specC06, "growth_ms", table)
 	_ = kernel.P{}
 }
+
+func cosf(a float64) float64 { return math.Cos(a) }
+func sinf(a float64) float64 { return math.Sin(a) }
